@@ -36,6 +36,7 @@ EXPLANATION = (
     "fresh run; no seeding call can receive a literal; inside the iteration pipeline no seeding call receives a "
     "non-None value; no foreign entropy source is used. Does not decide bit-identity of floating-point results "
     "across BLAS builds, nor that user callables are deterministic."
+    " Also (r7) nothing touches the random stream at import / definition time, and on the run driver's resume path the checkpoint load reaches a seeding call fed from the checkpoint; counters are followed to their literal start in seed provenance."
 )
 ASSUMPTIONS = [
     "all random draws go through numpy.random module functions (census listed in the evidence; any other source is reported)",
